@@ -12,7 +12,6 @@ import (
 	"time"
 
 	"github.com/internetarchive/Zeno/internal/pkg/config"
-	"github.com/internetarchive/Zeno/internal/pkg/controler"
 	"github.com/internetarchive/Zeno/internal/verif/vc"
 	"github.com/internetarchive/Zeno/pkg/models"
 )
@@ -278,7 +277,7 @@ func c06PipeChild(scPath string) int {
 	}
 	pr.perturb, pr.perturbSeed = 1, vc.DeriveSeed(sc.Seed, "C06", "perturb", sc.Index)
 	pr.installHooks(false)
-	controler.Start()
+	pr.start(false)
 	verdict := pr.waitQuiescent(6500*time.Millisecond, 14*time.Second, 240*time.Second)
 	rep.Evaluations = 1
 	rep.Extra["verdict"] = verdict
